@@ -318,6 +318,78 @@ func c05EncExec(c *core.Ctx, in c05Enc) {
 	}
 }
 
+// c05Hdr: a complete message of an assigned type whose other header octets (5GSM: PDU session identity and PTI;
+// 5GMM: the security header type octet, spare half included) take given values — dispatch must depend on the
+// discriminator and the message type only, on decode and on encode.
+type c05Hdr struct {
+	Family string `json:"family"`
+	Type   int    `json:"type"`
+	H1     int    `json:"header_octet_2"`
+	H2     int    `json:"header_octet_3"` // 5GSM only
+}
+
+func c05HdrBytes(spec *refcodec.Spec, in c05Hdr) []byte {
+	data := append([]byte{}, c05Body(spec, in.Family, in.Type)...)
+	if len(data) < 3 {
+		return nil
+	}
+	data[1] = byte(in.H1)
+	if in.Family == "gsm" {
+		data[2] = byte(in.H2)
+	}
+	return data
+}
+
+func c05HdrExec(c *core.Ctx, in c05Hdr) {
+	spec := loadSpec()
+	data := c05HdrBytes(spec, in)
+	if data == nil {
+		return
+	}
+	before := len(c.Viols)
+	c05DecExec(c, c05Dec{Entry: in.Family, Hex: fmt.Sprintf("%x", data)})
+	if len(c.Viols) != before {
+		return
+	}
+	var msg *nas.Message
+	var err error
+	if pi := core.Try(func() { msg, err = implDecodeEntry(in.Family, append([]byte{}, data...)) }); pi != nil || err != nil {
+		return
+	}
+	fail := func(k, w string) {
+		c.FailCase("encode|"+in.Family+"|header-values|"+k, fmt.Sprintf("%s message of type %#x with header octets %x: %s", in.Family, in.Type, data[:3], w), "header", in)
+	}
+	for _, plain := range []bool{false, true} {
+		var out []byte
+		pi := core.Try(func() {
+			if plain {
+				out, err = msg.PlainNasEncode()
+				return
+			}
+			buf := new(bytes.Buffer)
+			if in.Family == "gmm" {
+				err = msg.GmmMessageEncode(buf)
+			} else {
+				err = msg.GsmMessageEncode(buf)
+			}
+			out = buf.Bytes()
+		})
+		how := map[bool]string{false: "family encoder", true: "PlainNasEncode"}[plain]
+		if pi != nil {
+			fail(pi.Key(), how+" panics: "+pi.Msg)
+			return
+		}
+		if err != nil {
+			fail("assigned-type-error", fmt.Sprintf("%s refuses a decoded message of an assigned type: %v", how, err))
+			return
+		}
+		if !bytes.Equal(out, data) {
+			fail("bytes", fmt.Sprintf("%s gives %x for the decoded %x", how, clip(out), clip(data)))
+			return
+		}
+	}
+}
+
 func c05Run(c *core.Ctx) {
 	spec := loadSpec()
 	var n int64
@@ -430,6 +502,31 @@ func c05Run(c *core.Ctx) {
 			}
 		}
 	}
+	// header values: every assigned type x every value of the other header octets (5GSM: 256 x 256 PDU session identity x
+	// PTI; 5GMM: 256 security header octets), decoded, and the decoded message encoded through both encoders
+	for _, fam := range []string{"gmm", "gsm"} {
+		for _, t := range types[fam] {
+			u++
+			if !c.Mine(u) {
+				continue
+			}
+			if !c.Begin("header-block", "encode", map[string]any{"family": fam, "type": t}) {
+				continue
+			}
+			h2s := 1
+			if fam == "gsm" {
+				h2s = 256
+			}
+			for h1 := 0; h1 < 256; h1++ {
+				for h2 := 0; h2 < h2s; h2++ {
+					n++
+					c05HdrExec(c, c05Hdr{Family: fam, Type: t, H1: h1, H2: h2})
+				}
+				c.Tick()
+			}
+			c.Add("header_value_cases", int64(256*h2s))
+		}
+	}
 	// nested messages: every variable-length element of every message filled with a complete instance of every message
 	// type (a decoder that unpacks a container must still populate exactly the body the outer type names)
 	for mi := range spec.Messages {
@@ -535,6 +632,7 @@ func init() {
 	core.RegisterKind("C05", "reuse", c05ReuseExec)
 	core.RegisterKind("C05", "preset", c05PresetExec)
 	core.RegisterKind("C05", "encode", c05EncExec)
+	core.RegisterKind("C05", "header", c05HdrExec)
 	core.RegisterProp(&core.PropSpec{
 		ID: "C05", Level: "model_checking", Run: c05Run,
 		Shards: func(string) int { return 16 },
